@@ -1,6 +1,657 @@
 import SdbModel.Model.Art
 import SdbModel.Model.PMap
 import SdbModel.Generated.ArtParams
-/-! # C17 — theorems under construction (see DESIGN.md section 4) -/
+import SdbModel.Lemmas.PMap
+import SdbModel.Lemmas.PSet
+
+/-!
+# C17 — part.Map and part.Set are persistent, model-exact and round-trip
+
+> part.Map and part.Set are persistent ordered collections: every operation (Set,
+> Delete, map transactions, FromMap, Union, Difference) returns a value that
+> behaves as the corresponding mathematical map or set - iteration, Prefix and
+> LowerBound in bytewise key order, Len, Get/Has and the equality predicates all
+> consistent with it, a later write to a key winning over an earlier one - while
+> every previously obtained value is unchanged.  JSON and YAML encoding of any
+> value decodes to an equal value.
+
+Theorems over `Model.PMap` (the empty / singleton / tree representations of
+`part.Map` and every transition between them, `MapTxn`, `FromMap`, the
+unmarshallers, and `part.Set`), on top of the C11 refinement of the radix tree,
+for EVERY `ArtParams`, every key (`List Nat`, the empty key included) and value.
+The abstraction of a map is `Map.all` (= the marshalled, ordered entry list);
+the reference operations are those of C11 on strictly `cmpL`-ascending
+association lists (`Art.sinsert`, `Art.sdelete`, `Art.look`, `List.filter`) and
+`Art.sinsertAll` (insert the pairs of a list from left to right).  The
+hypothesis `PMap.MapWF` (a singleton excludes a tree; an allocated tree is
+`Art.TreeWF`) holds for the empty map and is preserved by every operation with
+NO side condition; the stronger `PMap.MapCanon` (the tree representation holds
+at least two entries, so that the abstract map determines the representation
+state) is preserved by Set / Delete / MapTxn.Commit, and by FromMap / Unmarshal
+when the argument has pairwise distinct keys (a Go map always has; a JSON
+document need not: `C17_decode_duplicate_keys_noncanonical`).  Hence both hold
+for every reachable map (`C17_reachable_refines_reference`, `C17_reachable_canonical`).
+For `part.Set` the abstraction is `PSet.all` (strictly ascending element list)
+and the invariant `PMap.SetWF`.
+
+Persistence ("every previously obtained value is unchanged") is, in this purely
+functional model, the fact that every operation returns a NEW value and reads
+are functions of their argument alone; no theorem is stated for it.  The
+aliasing half (a transaction mutates in place only nodes it owns) is C01's heap
+theorem over `Model.Cow`.  `Map.EqualKeys` / `Map.SlowEqual` are not in the
+model; `Set.Equal` is (`C17_set_equal_iff`).  Encoding is modelled as the
+ordered entry list (`Map.all` / `PSet.all`); the byte-level JSON / YAML codecs
+of the element types are in the trusted base.
+-/
 namespace Sdb
+open Art PMap
+
+/-! ## the invariant and the reads of a map -/
+
+/-- the zero `Map` satisfies both invariants -/
+theorem C17_empty_wf : MapWF {} ∧ MapCanon {} ∧ Map.all {} = [] := ⟨mapWF_empty, mapCanon_empty, rfl⟩
+
+/-- the canonical invariant implies the plain one (all read theorems need only `MapWF`) -/
+theorem C17_canon_implies_wf (m : Map) (h : MapCanon m) : MapWF m := h.1
+
+/-- **All iterates in strictly ascending bytewise key order** (so keys are unique) -/
+theorem C17_all_strictly_ascending (m : Map) (h : MapWF m) :
+    m.all.Pairwise (fun a b => cmpL a.1 b.1 = .lt) := all_sorted m h
+
+/-- **Get is the lookup in the iterated contents** -/
+theorem C17_get_is_lookup (m : Map) (h : MapWF m) (k : List Nat) : m.get k = look m.all k := get_look m h k
+
+/-- **All yields exactly the bindings Get finds** -/
+theorem C17_all_iff_get (m : Map) (h : MapWF m) (k : List Nat) (v : Nat) : (k, v) ∈ m.all ↔ m.get k = some v := by
+  rw [get_look m h]; exact mem_iff_look _ (all_sorted m h) k v
+
+/-- **Len is the number of iterated entries** -/
+theorem C17_len_is_length (m : Map) (h : MapWF m) : m.len = m.all.length := len_length m h
+
+/-- **Prefix returns exactly the entries whose key has the prefix, in iteration order** -/
+theorem C17_prefix_is_filter (m : Map) (h : MapWF m) (p : List Nat) :
+    m.prefix p = m.all.filter (fun e => hasPrefix e.1 p) := prefix_filter m h p
+
+/-- **LowerBound returns exactly the entries with key ≥ `k`, in iteration order** -/
+theorem C17_lowerbound_is_filter (m : Map) (h : MapWF m) (k : List Nat) :
+    m.lowerBound k = m.all.filter (fun e => decide (cmpL e.1 k ≠ .lt)) := lowerBound_filter m h k
+
+/-- **the abstract map determines the representation state**: under `MapCanon` a map is the
+    zero value iff it is empty, a singleton iff it has one entry, and has a tree iff it has
+    at least two entries; in every state at most one of singleton / tree is in use -/
+theorem C17_canonical_representation (m : Map) (h : MapCanon m) :
+    (m.all = [] ↔ m = {}) ∧ (∀ e, m.all = [e] ↔ m = { single := some e }) ∧
+    (m.tree.isSome = true ↔ 2 ≤ m.all.length) ∧ (m.single.isSome = true → m.tree = none) :=
+  ⟨canon_all_nil m h, canon_all_single m h, canon_tree_iff m h, h.1.1⟩
+
+/-! ## Set -/
+
+theorem C17_set_preserves_wf (P : ArtParams) (m : Map) (h : MapWF m) (k : List Nat) (v : Nat) :
+    MapWF (m.set P k v) := (set_spec P m h k v).1
+
+theorem C17_set_preserves_canon (P : ArtParams) (m : Map) (h : MapCanon m) (k : List Nat) (v : Nat) :
+    MapCanon (m.set P k v) := set_canon P m h k v
+
+/-- **the contents after Set are the reference insertion** (insert, or replace the value) -/
+theorem C17_set_refines_sinsert (P : ArtParams) (m : Map) (h : MapWF m) (k : List Nat) (v : Nat) :
+    (m.set P k v).all = sinsert m.all k v := (set_spec P m h k v).2
+
+/-- **Get after Set**: the written key has the new value, every other key is unchanged -/
+theorem C17_get_after_set (P : ArtParams) (m : Map) (h : MapWF m) (k k' : List Nat) (v : Nat) :
+    (m.set P k v).get k' = if k' = k then some v else m.get k' := by
+  rw [get_look _ (set_spec P m h k v).1, (set_spec P m h k v).2, look_sinsert, get_look m h]
+
+/-- **a later write to a key wins over an earlier one** -/
+theorem C17_set_later_write_wins (P : ArtParams) (m : Map) (h : MapWF m) (k : List Nat) (v v' : Nat) :
+    ((m.set P k v).set P k v').all = (m.set P k v').all := by
+  have h1 := set_spec P m h k v
+  rw [(set_spec P _ h1.1 k v').2, h1.2, (set_spec P m h k v').2, sinsert_override _ (all_sorted m h)]
+
+/-- writes to different keys commute -/
+theorem C17_set_commutes (P : ArtParams) (m : Map) (h : MapWF m) (k k' : List Nat) (v v' : Nat) (hne : k ≠ k') :
+    ((m.set P k v).set P k' v').all = ((m.set P k' v').set P k v).all := by
+  have h1 := set_spec P m h k v
+  have h2 := set_spec P m h k' v'
+  rw [(set_spec P _ h1.1 k' v').2, h1.2, (set_spec P _ h2.1 k v).2, h2.2, sinsert_comm _ (all_sorted m h) _ _ _ _ hne]
+
+/-- **Len grows by one iff the key was absent** -/
+theorem C17_set_len (P : ArtParams) (m : Map) (h : MapWF m) (k : List Nat) (v : Nat) :
+    (m.set P k v).len = if m.get k = none then m.len + 1 else m.len := by
+  rw [len_length _ (set_spec P m h k v).1, (set_spec P m h k v).2, length_sinsert _ (all_sorted m h),
+    get_look m h, len_length m h]
+  cases look m.all k <;> simp
+
+/-! ## Delete -/
+
+theorem C17_delete_preserves_wf (P : ArtParams) (m : Map) (h : MapWF m) (k : List Nat) :
+    MapWF (m.delete P k) := (delete_spec P m h k).1
+
+theorem C17_delete_preserves_canon (P : ArtParams) (m : Map) (h : MapCanon m) (k : List Nat) :
+    MapCanon (m.delete P k) := delete_canon P m h k
+
+/-- **the contents after Delete are the reference deletion** -/
+theorem C17_delete_refines_sdelete (P : ArtParams) (m : Map) (h : MapWF m) (k : List Nat) :
+    (m.delete P k).all = sdelete m.all k := (delete_spec P m h k).2
+
+/-- **deleting an absent key leaves the contents unchanged** -/
+theorem C17_delete_absent_unchanged (P : ArtParams) (m : Map) (h : MapWF m) (k : List Nat)
+    (habs : m.get k = none) : (m.delete P k).all = m.all := by
+  rw [(delete_spec P m h k).2]
+  rw [get_look m h] at habs
+  exact sdelete_of_look_none _ _ habs
+
+/-- **Get after Delete** -/
+theorem C17_get_after_delete (P : ArtParams) (m : Map) (h : MapWF m) (k k' : List Nat) :
+    (m.delete P k).get k' = if k' = k then none else m.get k' := by
+  rw [get_look _ (delete_spec P m h k).1, (delete_spec P m h k).2, look_sdelete, get_look m h]
+
+/-- **Len drops by one iff the key was present** -/
+theorem C17_delete_len (P : ArtParams) (m : Map) (h : MapWF m) (k : List Nat) :
+    (m.delete P k).len = if m.get k = none then m.len else m.len - 1 := by
+  rw [len_length _ (delete_spec P m h k).1, (delete_spec P m h k).2, length_sdelete _ (all_sorted m h),
+    get_look m h, len_length m h]
+  cases look m.all k <;> simp
+
+/-- deleting a freshly set key that was absent gives the old contents back -/
+theorem C17_delete_after_set (P : ArtParams) (m : Map) (h : MapWF m) (k : List Nat) (v : Nat)
+    (habs : m.get k = none) : ((m.set P k v).delete P k).all = m.all := by
+  have h1 := set_spec P m h k v
+  rw [(delete_spec P _ h1.1 k).2, h1.2]
+  rw [get_look m h] at habs
+  exact sdelete_sinsert _ (all_sorted m h) k v habs
+
+/-! ## FromMap -/
+
+/-- `FromMap` keeps the invariant for ANY argument list -/
+theorem C17_fromMap_preserves_wf (P : ArtParams) (m : Map) (h : MapWF m) (hm : List KV) :
+    MapWF (m.fromMap P hm) := (fromMap_spec P m h hm).1
+
+/-- with a duplicate-free argument (every Go map) the canonical representation is kept -/
+theorem C17_fromMap_preserves_canon (P : ArtParams) (m : Map) (h : MapCanon m) (hm : List KV)
+    (hd : KeysNodup hm) : MapCanon (m.fromMap P hm) := fromMap_canon P m h hm hd
+
+/-- **the contents after FromMap are the old entries overridden by the new ones** -/
+theorem C17_fromMap_refines_fold (P : ArtParams) (m : Map) (h : MapWF m) (hm : List KV) :
+    (m.fromMap P hm).all = sinsertAll m.all hm := (fromMap_spec P m h hm).2
+
+/-- **the result does not depend on the iteration order of the Go map** -/
+theorem C17_fromMap_order_independent (P : ArtParams) (m : Map) (h : MapWF m) (hm hm' : List KV)
+    (hd : KeysNodup hm) (hp : hm.Perm hm') : (m.fromMap P hm).all = (m.fromMap P hm').all := by
+  rw [(fromMap_spec P m h hm).2, (fromMap_spec P m h hm').2]
+  exact sinsertAll_perm _ (all_sorted m h) hm hm' hd hp
+
+/-- **Get after FromMap**: the keys of the Go map have its values (also the key of an old
+    singleton), all other keys are unchanged -/
+theorem C17_get_after_fromMap (P : ArtParams) (m : Map) (h : MapWF m) (hm : List KV) (hd : KeysNodup hm)
+    (k : List Nat) :
+    (m.fromMap P hm).get k = match look hm k with | some v => some v | none => m.get k := by
+  rw [get_look _ (fromMap_spec P m h hm).1, (fromMap_spec P m h hm).2, look_sinsertAll_nodup _ _ hd, get_look m h]
+  cases look hm k <;> rfl
+
+/-- membership form: the entries are those of the Go map plus the old ones with other keys -/
+theorem C17_fromMap_members (P : ArtParams) (m : Map) (h : MapWF m) (hm : List KV) (hd : KeysNodup hm) (e : KV) :
+    e ∈ (m.fromMap P hm).all ↔ e ∈ hm ∨ (e.1 ∉ hm.map (·.1) ∧ e ∈ m.all) := by
+  rw [(fromMap_spec P m h hm).2]
+  exact mem_sinsertAll _ (all_sorted m h) hm hd e
+
+/-- **FromMap into a singleton**: a key of the Go map that is also the singleton's key gets
+    the Go map's value (the singleton is inserted first, so the new entry wins) -/
+theorem C17_fromMap_overrides_singleton (P : ArtParams) (k : List Nat) (v0 v : Nat) (hm : List KV)
+    (hd : KeysNodup hm) (hin : (k, v) ∈ hm) :
+    (Map.fromMap P { single := some (k, v0) } hm).get k = some v := by
+  rw [C17_get_after_fromMap P _ (mapWF_single _) hm hd k, (mem_iff_look_nodup hm hd k v).mp hin]
+
+/-! ## map transactions -/
+
+/-- the writes of a `MapTxn` -/
+inductive PMap.TOp where
+  | set (k : List Nat) (v : Nat)
+  | delete (k : List Nat)
+
+def PMap.stepT (P : ArtParams) (x : Txn) : TOp → Txn
+  | .set k v => insT P x k v
+  | .delete k => (x.delete P k).1
+
+/-- the same write on the reference list -/
+def PMap.specT (l : List KV) : TOp → List KV
+  | .set k v => sinsert l k v
+  | .delete k => sdelete l k
+
+/-- `Map.Txn()` starts from exactly the contents of the map (the singleton included) -/
+theorem C17_txn_starts_from_map (P : ArtParams) (m : Map) (h : MapWF m) :
+    TxnWF (m.txn P) ∧ allRoot (m.txn P).root = m.all := txn_spec P m h
+
+/-- any writes through a transaction keep the tree invariant and are the reference writes -/
+theorem C17_txn_run_refines (P : ArtParams) (ops : List TOp) (x : Txn) (h : TxnWF x) :
+    TxnWF (ops.foldl (stepT P) x) ∧ allRoot (ops.foldl (stepT P) x).root = ops.foldl specT (allRoot x.root) := by
+  induction ops generalizing x with
+  | nil => exact ⟨h, rfl⟩
+  | cons op ops ih =>
+    cases op with
+    | set k v =>
+      have := ih _ (insT_wf P x k v h)
+      rw [insT_all P x k v h] at this
+      exact this
+    | delete k =>
+      have := ih _ (delT_wf P x k h)
+      rw [delT_all P x k h] at this
+      exact this
+
+/-- **the reads of a `MapTxn`** (Get / Len / All / Prefix / LowerBound) after any writes see
+    the reference writes applied to the contents of the map it was opened on -/
+theorem C17_txn_reads_are_reference (P : ArtParams) (m : Map) (h : MapWF m) (ops : List TOp) (w : Nat)
+    (k : List Nat) :
+    let x := ops.foldl (stepT P) (m.txn P)
+    let l := ops.foldl specT m.all
+    allRoot x.root = l ∧ (getRoot x.root w k).1 = look l k ∧ x.size = l.length ∧
+    (prefixRoot x.root w k).1 = l.filter (fun e => hasPrefix e.1 k) ∧
+    lbRoot x.root k = l.filter (fun e => decide (cmpL e.1 k ≠ .lt)) := by
+  intro x l
+  obtain ⟨h1, h2⟩ := txn_spec P m h
+  obtain ⟨h3, h4⟩ := C17_txn_run_refines P ops _ h1
+  have e : allRoot x.root = l := by rw [h4, h2]
+  refine ⟨e, ?_, ?_, ?_, ?_⟩
+  · rw [getRoot_look _ h3.1, e]
+  · rw [h3.2, e]
+  · rw [← e]
+    cases hr : x.root with
+    | none => rfl
+    | some r =>
+      have := h3.1
+      rw [hr] at this
+      exact prefixNode_eq [] r this w k
+  · rw [← e]
+    cases hr : x.root with
+    | none => rfl
+    | some r =>
+      have := h3.1
+      rw [hr] at this
+      exact lbNode_eq [] r this k
+
+/-- `MapTxn.Commit` publishes exactly the transaction's contents in the canonical
+    representation and leaves a well-formed transaction with the same contents -/
+theorem C17_commit_publishes_txn (x : Txn) (h : TxnWF x) :
+    MapCanon (commitMapTxn x).1 ∧ (commitMapTxn x).1.all = allRoot x.root ∧
+    TxnWF (commitMapTxn x).2 ∧ allRoot (commitMapTxn x).2.root = allRoot x.root :=
+  ⟨(commitMapTxn_spec x h).1, (commitMapTxn_spec x h).2.1, (commitMapTxn_spec x h).2.2.1, (commitMapTxn_spec x h).2.2.2.1⟩
+
+/-- **Txn, any writes, Commit**: the committed map is canonical and its contents are the
+    reference writes applied to the contents of the map the transaction was opened on -/
+theorem C17_txn_commit_refines_reference (P : ArtParams) (m : Map) (h : MapWF m) (ops : List TOp) :
+    MapCanon (commitMapTxn (ops.foldl (stepT P) (m.txn P))).1 ∧
+    (commitMapTxn (ops.foldl (stepT P) (m.txn P))).1.all = ops.foldl specT m.all := by
+  obtain ⟨h1, h2⟩ := txn_spec P m h
+  obtain ⟨h3, h4⟩ := C17_txn_run_refines P ops _ h1
+  obtain ⟨h5, h6, _⟩ := commitMapTxn_spec _ h3
+  exact ⟨h5, by rw [h6, h4, h2]⟩
+
+/-- **the transaction is still usable after Commit**: further writes `ops'` through the
+    transaction returned by the first Commit and a second Commit give a canonical map whose
+    contents are `ops'` applied to the FIRST committed map's contents, and the first
+    committed map (an immutable value) still has the contents it was committed with -/
+theorem C17_txn_reusable_after_commit (P : ArtParams) (m : Map) (h : MapWF m) (ops ops' : List TOp) :
+    let c1 := commitMapTxn (ops.foldl (stepT P) (m.txn P))
+    let c2 := commitMapTxn (ops'.foldl (stepT P) c1.2)
+    MapCanon c2.1 ∧ c2.1.all = ops'.foldl specT c1.1.all ∧ c1.1.all = ops.foldl specT m.all := by
+  intro c1 c2
+  obtain ⟨h1, h2⟩ := txn_spec P m h
+  obtain ⟨h3, h4⟩ := C17_txn_run_refines P ops _ h1
+  obtain ⟨_, h6, h7, h8, _⟩ := commitMapTxn_spec _ h3
+  obtain ⟨h9, h10⟩ := C17_txn_run_refines P ops' _ h7
+  obtain ⟨h11, h12, _⟩ := commitMapTxn_spec _ h9
+  refine ⟨h11, ?_, by rw [h6, h4, h2]⟩
+  show (commitMapTxn _).1.all = _
+  rw [h12, h10, h8]
+  show _ = List.foldl specT (commitMapTxn _).1.all ops'
+  rw [h6]
+
+/-! ## JSON / YAML round trip of a map (encode = the ordered entry list `Map.all`) -/
+
+/-- unmarshalling ANY entry list gives a well-formed map holding the entries inserted from
+    left to right (a later duplicate wins) -/
+theorem C17_decode_refines_fold (P : ArtParams) (es : List KV) :
+    MapWF (Map.ofEntries P es) ∧ (Map.ofEntries P es).all = sinsertAll [] es := ofEntries_spec P es
+
+/-- with pairwise distinct keys the decoded map is canonical -/
+theorem C17_decode_canon (P : ArtParams) (es : List KV) (hd : KeysNodup es) : MapCanon (Map.ofEntries P es) :=
+  ofEntries_canon P es hd
+
+/-- **encode then decode gives an equal map**: same contents, canonical representation -/
+theorem C17_map_roundtrip (P : ArtParams) (m : Map) (h : MapWF m) :
+    (Map.ofEntries P m.all).all = m.all ∧ MapCanon (Map.ofEntries P m.all) :=
+  ⟨(roundtrip P m h).2, (roundtrip P m h).1⟩
+
+/-- every read of the decoded map agrees with the original -/
+theorem C17_map_roundtrip_reads (P : ArtParams) (m : Map) (h : MapWF m) (k : List Nat) :
+    (Map.ofEntries P m.all).get k = m.get k ∧ (Map.ofEntries P m.all).len = m.len ∧
+    (Map.ofEntries P m.all).prefix k = m.prefix k ∧ (Map.ofEntries P m.all).lowerBound k = m.lowerBound k := by
+  obtain ⟨hc, ha⟩ := roundtrip P m h
+  refine ⟨?_, ?_, ?_, ?_⟩
+  · rw [get_look _ hc.1, ha, get_look m h]
+  · rw [len_length _ hc.1, ha, len_length m h]
+  · rw [prefix_filter _ hc.1, ha, prefix_filter m h]
+  · rw [lowerBound_filter _ hc.1, ha, lowerBound_filter m h]
+
+/-- for a canonical map the round trip reproduces the representation state as well -/
+theorem C17_map_roundtrip_representation (P : ArtParams) (m : Map) (h : MapCanon m) :
+    (Map.ofEntries P m.all).single = m.single ∧ (Map.ofEntries P m.all).tree.isSome = m.tree.isSome := by
+  obtain ⟨hc, ha⟩ := roundtrip P m h.1
+  rcases h.1.cases with rfl | ⟨e, rfl⟩ | ⟨t, rfl, ht⟩
+  · exact ⟨rfl, rfl⟩
+  · exact ⟨rfl, rfl⟩
+  · have h2 : 2 ≤ (Map.ofEntries P (Map.all { single := none, tree := some t })).all.length := by
+      rw [ha]; exact (canon_tree_iff _ h).mp rfl
+    have h3 := (canon_tree_iff _ hc).mpr h2
+    refine ⟨?_, h3⟩
+    cases hs : (Map.ofEntries P (Map.all { single := none, tree := some t })).single with
+    | none => rfl
+    | some e =>
+      have := hc.1.1 (by rw [hs]; rfl)
+      rw [this] at h3
+      simp at h3
+
+/-- a JSON document with a repeated key decodes to a tree of ONE entry: the same abstract
+    map as the singleton, but not its canonical representation (why `C17_decode_canon` and
+    `C17_fromMap_preserves_canon` need distinct keys; a marshalled map never has duplicates) -/
+theorem C17_decode_duplicate_keys_noncanonical :
+    (Map.ofEntries Gen.artParams [([1], 1), ([1], 2)]).all = [([1], 2)] ∧
+    (Map.ofEntries Gen.artParams [([1], 1), ([1], 2)]).tree.isSome = true ∧
+    ¬ MapCanon (Map.ofEntries Gen.artParams [([1], 1), ([1], 2)]) := by
+  refine ⟨by decide, by decide, ?_⟩
+  intro h
+  have := (canon_tree_iff _ h).mp (by decide)
+  revert this
+  decide
+
+/-! ## every reachable map: operation sequences against the reference map -/
+
+/-- the operations of the `part.Map` API that produce maps -/
+inductive PMap.Op where
+  | set (k : List Nat) (v : Nat)
+  | delete (k : List Nat)
+  /-- `FromMap(m, hm)`; the list is the Go map in the order it happens to be iterated -/
+  | fromMap (hm : List KV)
+  /-- `Txn()`, the writes, `Commit()` -/
+  | txn (ops : List TOp)
+  /-- marshal (JSON or YAML), then unmarshal -/
+  | recode
+  /-- unmarshal the entry list `es` into the receiver -/
+  | decode (es : List KV)
+
+def PMap.stepMap (P : ArtParams) (m : Map) : PMap.Op → Map
+  | .set k v => m.set P k v
+  | .delete k => m.delete P k
+  | .fromMap hm => m.fromMap P hm
+  | .txn ops => (commitMapTxn (ops.foldl (stepT P) (m.txn P))).1
+  | .recode => Map.ofEntries P m.all
+  | .decode es => Map.ofEntries P es
+
+/-- the same operation on the reference sorted association list -/
+def PMap.specMap (l : List KV) : PMap.Op → List KV
+  | .set k v => sinsert l k v
+  | .delete k => sdelete l k
+  | .fromMap hm => sinsertAll l hm
+  | .txn ops => ops.foldl specT l
+  | .recode => l
+  | .decode es => sinsertAll [] es
+
+/-- what the API guarantees about the arguments: a Go map has pairwise distinct keys; for
+    `decode`, that the document has no repeated key (needed for canonicity only) -/
+def PMap.Op.ok : PMap.Op → Prop
+  | .fromMap hm => KeysNodup hm
+  | .decode es => KeysNodup es
+  | _ => True
+
+instance (op : PMap.Op) : Decidable op.ok := by
+  cases op <;> simp only [PMap.Op.ok, KeysNodup] <;> infer_instance
+
+/-- one operation preserves `MapWF` and commutes with the reference operation -/
+theorem C17_step_refines (P : ArtParams) (m : Map) (h : MapWF m) (op : PMap.Op) :
+    MapWF (stepMap P m op) ∧ (stepMap P m op).all = specMap m.all op := by
+  cases op with
+  | set k v => exact set_spec P m h k v
+  | delete k => exact delete_spec P m h k
+  | fromMap hm => exact fromMap_spec P m h hm
+  | txn ops => exact ⟨(C17_txn_commit_refines_reference P m h ops).1.1, (C17_txn_commit_refines_reference P m h ops).2⟩
+  | recode => exact ⟨(roundtrip P m h).1.1, (roundtrip P m h).2⟩
+  | decode es => exact ofEntries_spec P es
+
+/-- one operation with API-conformant arguments preserves the canonical representation -/
+theorem C17_step_preserves_canon (P : ArtParams) (m : Map) (h : MapCanon m) (op : PMap.Op) (hok : op.ok) :
+    MapCanon (stepMap P m op) := by
+  cases op with
+  | set k v => exact set_canon P m h k v
+  | delete k => exact delete_canon P m h k
+  | fromMap hm => exact fromMap_canon P m h hm hok
+  | txn ops => exact (C17_txn_commit_refines_reference P m h.1 ops).1
+  | recode => exact (roundtrip P m h.1).1
+  | decode es => exact ofEntries_canon P es hok
+
+/-- **any operation sequence from any well-formed map** keeps the invariant and yields the
+    contents the reference map yields -/
+theorem C17_run_refines_reference (P : ArtParams) (ops : List PMap.Op) (m : Map) (h : MapWF m) :
+    MapWF (ops.foldl (stepMap P) m) ∧ (ops.foldl (stepMap P) m).all = ops.foldl specMap m.all := by
+  induction ops generalizing m with
+  | nil => exact ⟨h, rfl⟩
+  | cons op rest ih =>
+    obtain ⟨h1, h2⟩ := C17_step_refines P m h op
+    have := ih (stepMap P m op) h1
+    simp only [List.foldl_cons]
+    rw [← h2]; exact this
+
+/-- **every reachable map**: whatever Set / Delete / FromMap / transactions / encode-decode
+    round trips / decodes are applied starting from the zero `Map`, the invariant holds and
+    the contents are those of the reference map built by the same operations from `[]` -/
+theorem C17_reachable_refines_reference (P : ArtParams) (ops : List PMap.Op) :
+    MapWF (ops.foldl (stepMap P) {}) ∧ (ops.foldl (stepMap P) {}).all = ops.foldl specMap [] :=
+  C17_run_refines_reference P ops {} mapWF_empty
+
+/-- **every map reachable with API-conformant arguments is in canonical representation** -/
+theorem C17_reachable_canonical (P : ArtParams) (ops : List PMap.Op) (hok : ∀ op ∈ ops, op.ok) :
+    MapCanon (ops.foldl (stepMap P) {}) := by
+  suffices ∀ m : Map, MapCanon m → MapCanon (ops.foldl (stepMap P) m) from this _ mapCanon_empty
+  induction ops with
+  | nil => exact fun _ h => h
+  | cons op rest ih =>
+    intro m h
+    exact ih (fun o ho => hok o (List.mem_cons_of_mem _ ho)) _
+      (C17_step_preserves_canon P m h op (hok op (List.mem_cons_self ..)))
+
+/-! ## part.Set -/
+
+/-- **All of a set is strictly ascending in bytewise order** (so without repetitions) -/
+theorem C17_set_all_strictly_ascending (s : PSet) (h : SetWF s) :
+    s.all.Pairwise (fun a b => cmpL a b = .lt) := pset_all_ksorted s h
+
+/-- two strictly ascending lists with the same members are equal: the membership theorems
+    below determine `all` of the result completely -/
+theorem C17_set_sorted_members_unique (l₁ l₂ : List (List Nat))
+    (h₁ : l₁.Pairwise (fun a b => cmpL a b = .lt)) (h₂ : l₂.Pairwise (fun a b => cmpL a b = .lt))
+    (h : ∀ k, k ∈ l₁ ↔ k ∈ l₂) : l₁ = l₂ := ksorted_ext l₁ l₂ h₁ h₂ h
+
+/-- **Has is membership in All** -/
+theorem C17_set_has_iff_mem (s : PSet) (h : SetWF s) (k : List Nat) : s.has k = true ↔ k ∈ s.all :=
+  pset_has_iff s h k
+
+/-- **Len is the number of elements** -/
+theorem C17_set_len_is_length (s : PSet) (h : SetWF s) : s.len = s.all.length := pset_len_length s h
+
+/-- the zero `Set` -/
+theorem C17_set_empty_wf : SetWF {} ∧ PSet.all {} = [] := ⟨setWF_empty, rfl⟩
+
+/-- **NewSet(values...)** holds exactly the values (any order, repetitions allowed) -/
+theorem C17_newSet_members (P : ArtParams) (vs : List (List Nat)) :
+    SetWF (PSet.ofList P vs) ∧ ∀ q, q ∈ (PSet.ofList P vs).all ↔ q ∈ vs := pset_ofList_spec P vs
+
+/-- **Set.Set** adds the value -/
+theorem C17_set_insert_members (P : ArtParams) (s : PSet) (h : SetWF s) (k : List Nat) :
+    SetWF (s.set P k) ∧ ∀ q, q ∈ (s.set P k).all ↔ q = k ∨ q ∈ s.all := pset_set_spec P s h k
+
+/-- **Set.Delete** removes exactly the value -/
+theorem C17_set_delete_is_filter (P : ArtParams) (s : PSet) (h : SetWF s) (k : List Nat) :
+    SetWF (s.delete P k) ∧ (s.delete P k).all = s.all.filter (fun q => decide (q ≠ k)) :=
+  pset_delete_spec P s h k
+
+/-- **Union is the set union** -/
+theorem C17_set_union_is_union (P : ArtParams) (s s2 : PSet) (h : SetWF s) (h2 : SetWF s2) :
+    SetWF (s.union P s2) ∧ ∀ q, q ∈ (s.union P s2).all ↔ q ∈ s.all ∨ q ∈ s2.all :=
+  pset_union_spec P s s2 h h2
+
+/-- Union is commutative and idempotent on the element lists -/
+theorem C17_set_union_comm_idem (P : ArtParams) (s s2 : PSet) (h : SetWF s) (h2 : SetWF s2) :
+    (s.union P s2).all = (s2.union P s).all ∧ (s.union P s).all = s.all := by
+  obtain ⟨w1, m1⟩ := pset_union_spec P s s2 h h2
+  obtain ⟨w2, m2⟩ := pset_union_spec P s2 s h2 h
+  obtain ⟨w3, m3⟩ := pset_union_spec P s s h h
+  constructor
+  · apply ksorted_ext _ _ (pset_all_ksorted _ w1) (pset_all_ksorted _ w2)
+    intro k; rw [m1, m2]; exact Or.comm
+  · apply ksorted_ext _ _ (pset_all_ksorted _ w3) (pset_all_ksorted _ h)
+    intro k; rw [m3]; simp
+
+/-- **Difference is the set difference**: the elements of the first set not in the second, in order -/
+theorem C17_set_difference_is_filter (P : ArtParams) (s s2 : PSet) (h : SetWF s) (h2 : SetWF s2) :
+    SetWF (s.difference P s2) ∧ (s.difference P s2).all = s.all.filter (fun q => decide (q ∉ s2.all)) :=
+  pset_difference_spec P s s2 h h2
+
+/-- **Equal holds iff the element lists are equal** -/
+theorem C17_set_equal_iff (s o : PSet) (h : SetWF s) (h2 : SetWF o) : s.equal o = true ↔ s.all = o.all :=
+  pset_equal_iff s o h h2
+
+/-- **JSON and YAML round trip of a set**: decoding the element list gives a set with the
+    same elements, `Equal` to the original -/
+theorem C17_set_roundtrip (P : ArtParams) (s : PSet) (h : SetWF s) :
+    (PSet.ofJSON P s.all).all = s.all ∧ (PSet.ofYAML P s.all).all = s.all ∧
+    (PSet.ofJSON P s.all).equal s = true ∧ (PSet.ofYAML P s.all).equal s = true := by
+  obtain ⟨w1, m1⟩ := pset_ofJSON_spec P s.all
+  obtain ⟨w2, m2⟩ := pset_ofYAML_spec P s.all
+  have e1 := ksorted_ext _ _ (pset_all_ksorted _ w1) (pset_all_ksorted _ h) m1
+  have e2 := ksorted_ext _ _ (pset_all_ksorted _ w2) (pset_all_ksorted _ h) m2
+  exact ⟨e1, e2, (pset_equal_iff _ _ w1 h).mpr e1, (pset_equal_iff _ _ w2 h).mpr e2⟩
+
+/-- decoding ANY element list (any order, repetitions) gives exactly its elements -/
+theorem C17_set_decode_members (P : ArtParams) (vs : List (List Nat)) :
+    (SetWF (PSet.ofJSON P vs) ∧ ∀ q, q ∈ (PSet.ofJSON P vs).all ↔ q ∈ vs) ∧
+    (SetWF (PSet.ofYAML P vs) ∧ ∀ q, q ∈ (PSet.ofYAML P vs).all ↔ q ∈ vs) :=
+  ⟨pset_ofJSON_spec P vs, pset_ofYAML_spec P vs⟩
+
+/-- the sets that can be built with the `part.Set` API -/
+inductive PMap.SetReach (P : ArtParams) : PSet → Prop where
+  | zero : SetReach P {}
+  | newSet (vs : List (List Nat)) : SetReach P (PSet.ofList P vs)
+  | set {s : PSet} (k : List Nat) : SetReach P s → SetReach P (s.set P k)
+  | delete {s : PSet} (k : List Nat) : SetReach P s → SetReach P (s.delete P k)
+  | union {s s2 : PSet} : SetReach P s → SetReach P s2 → SetReach P (s.union P s2)
+  | difference {s s2 : PSet} : SetReach P s → SetReach P s2 → SetReach P (s.difference P s2)
+  | ofJSON (vs : List (List Nat)) : SetReach P (PSet.ofJSON P vs)
+  | ofYAML (vs : List (List Nat)) : SetReach P (PSet.ofYAML P vs)
+
+/-- **every reachable set satisfies the invariant** (so all theorems above apply to it) -/
+theorem C17_set_reachable_wf (P : ArtParams) (s : PSet) (h : SetReach P s) : SetWF s := by
+  induction h with
+  | zero => exact setWF_empty
+  | newSet vs => exact (pset_ofList_spec P vs).1
+  | set k _ ih => exact (pset_set_spec P _ ih k).1
+  | delete k _ ih => exact (pset_delete_spec P _ ih k).1
+  | union _ _ ih1 ih2 => exact (pset_union_spec P _ _ ih1 ih2).1
+  | difference _ _ ih1 ih2 => exact (pset_difference_spec P _ _ ih1 ih2).1
+  | ofJSON vs => exact (pset_ofJSON_spec P vs).1
+  | ofYAML vs => exact (pset_ofYAML_spec P vs).1
+
+/-- expressions over the `part.Set` API -/
+inductive PMap.SetExpr where
+  | zero
+  | newSet (vs : List (List Nat))
+  | set (e : SetExpr) (k : List Nat)
+  | delete (e : SetExpr) (k : List Nat)
+  | union (e e2 : SetExpr)
+  | difference (e e2 : SetExpr)
+  | ofJSON (vs : List (List Nat))
+  | ofYAML (vs : List (List Nat))
+
+def PMap.SetExpr.eval (P : ArtParams) : SetExpr → PSet
+  | .zero => {}
+  | .newSet vs => PSet.ofList P vs
+  | .set e k => (e.eval P).set P k
+  | .delete e k => (e.eval P).delete P k
+  | .union e e2 => (e.eval P).union P (e2.eval P)
+  | .difference e e2 => (e.eval P).difference P (e2.eval P)
+  | .ofJSON vs => PSet.ofJSON P vs
+  | .ofYAML vs => PSet.ofYAML P vs
+
+/-- the mathematical set denoted by an expression -/
+def PMap.SetExpr.denotes : SetExpr → List Nat → Prop
+  | .zero, _ => False
+  | .newSet vs, q => q ∈ vs
+  | .set e k, q => q = k ∨ e.denotes q
+  | .delete e k, q => q ≠ k ∧ e.denotes q
+  | .union e e2, q => e.denotes q ∨ e2.denotes q
+  | .difference e e2, q => e.denotes q ∧ ¬ e2.denotes q
+  | .ofJSON vs, q => q ∈ vs
+  | .ofYAML vs, q => q ∈ vs
+
+/-- **every value built with the Set API is the mathematical set it denotes**: well formed,
+    and (with `C17_set_all_strictly_ascending`, `C17_set_has_iff_mem`, `C17_set_len_is_length`)
+    its iteration is THE strictly ascending enumeration of that set -/
+theorem C17_set_expr_refines_reference (P : ArtParams) (e : SetExpr) :
+    SetWF (e.eval P) ∧ ∀ q, q ∈ (e.eval P).all ↔ e.denotes q := by
+  induction e with
+  | zero => exact ⟨setWF_empty, fun q => by simp [SetExpr.eval, SetExpr.denotes, PSet.all]⟩
+  | newSet vs => exact pset_ofList_spec P vs
+  | set e k ih =>
+    obtain ⟨w, m⟩ := pset_set_spec P _ ih.1 k
+    exact ⟨w, fun q => by rw [SetExpr.eval, m, ih.2]; rfl⟩
+  | delete e k ih =>
+    obtain ⟨w, m⟩ := pset_delete_spec P _ ih.1 k
+    refine ⟨w, fun q => ?_⟩
+    rw [SetExpr.eval, m, List.mem_filter, ih.2]
+    simp only [decide_eq_true_eq, SetExpr.denotes]
+    exact And.comm
+  | union e e2 ih ih2 =>
+    obtain ⟨w, m⟩ := pset_union_spec P _ _ ih.1 ih2.1
+    exact ⟨w, fun q => by rw [SetExpr.eval, m, ih.2, ih2.2]; rfl⟩
+  | difference e e2 ih ih2 =>
+    obtain ⟨w, m⟩ := pset_difference_spec P _ _ ih.1 ih2.1
+    refine ⟨w, fun q => ?_⟩
+    rw [SetExpr.eval, m, List.mem_filter, ih.2]
+    simp only [decide_eq_true_eq, SetExpr.denotes, ih2.2]
+  | ofJSON vs => exact pset_ofJSON_spec P vs
+  | ofYAML vs => exact pset_ofYAML_spec P vs
+
+/-! ## non-vacuity: concrete reachable values (empty key, keys that are prefixes of each
+    other, overwrite of the singleton, FromMap over a singleton, a transaction that empties
+    and refills, deletes down to the singleton and to the zero value) -/
+
+def PMap.sampleOps : List PMap.Op :=
+  [.set [1, 2] 10, .set [1, 2] 11, .set [] 20, .fromMap [([1], 30), ([1, 2], 12), ([7], 70)],
+   .txn [.delete [7], .set [1, 2, 3] 40, .delete [9]], .recode, .delete [1]]
+
+example : (sampleOps.foldl (stepMap Gen.artParams) {}).all = [([], 20), ([1, 2], 12), ([1, 2, 3], 40)] := by decide
+
+example : sampleOps.foldl specMap [] = [([], 20), ([1, 2], 12), ([1, 2, 3], 40)] := by decide
+
+example : ∀ op ∈ sampleOps, op.ok := by decide
+
+example : MapCanon (sampleOps.foldl (stepMap Gen.artParams) {}) :=
+  C17_reachable_canonical Gen.artParams sampleOps (by decide)
+
+/-- all three representation states occur -/
+example :
+    (([.set [5] 1] : List PMap.Op).foldl (stepMap Gen.artParams) {}).rep = "single" ∧
+    (([.set [5] 1, .set [6] 2, .delete [5]] : List PMap.Op).foldl (stepMap Gen.artParams) {}).all = [([6], 2)] ∧
+    (([.set [5] 1, .set [6] 2, .delete [5]] : List PMap.Op).foldl (stepMap Gen.artParams) {}).single = some ([6], 2) ∧
+    (([.set [5] 1, .set [6] 2] : List PMap.Op).foldl (stepMap Gen.artParams) {}).tree.isSome = true ∧
+    (([.set [5] 1, .delete [5]] : List PMap.Op).foldl (stepMap Gen.artParams) {}).rep = "empty" := by decide
+
+/-- a non-trivial reachable set, its union, difference and round trip -/
+example :
+    (PSet.ofList Gen.artParams [[3], [], [1, 2], [3]]).all = [[], [1, 2], [3]] ∧
+    ((PSet.ofList Gen.artParams [[3], []]).union Gen.artParams (PSet.ofList Gen.artParams [[1], [3]])).all = [[], [1], [3]] ∧
+    ((PSet.ofList Gen.artParams [[3], [], [1]]).difference Gen.artParams (PSet.ofList Gen.artParams [[1], [4]])).all = [[], [3]] ∧
+    (PSet.ofJSON Gen.artParams [[], [1, 2], [3]]).equal (PSet.ofList Gen.artParams [[3], [], [1, 2], [3]]) = true := by
+  decide
+
+example : SetWF ((PSet.ofList Gen.artParams [[3], []]).union Gen.artParams (PSet.ofList Gen.artParams [[1], [3]])) :=
+  C17_set_reachable_wf _ _ (.union (.newSet _) (.newSet _))
+
 end Sdb
